@@ -412,6 +412,7 @@ def leg_strace(ns, res, spec):
         make_db(db, rng)
         before = {p: sources.fingerprint(p) for p in (inp, jn, db)}
         e = dict(os.environ, PYTHONPATH=env.PY_PKG_DIR, PYTHONDONTWRITEBYTECODE='1', HOME=d)
+        followed = set()
         for n in range(spec['n']):
             log = os.path.join(d, 'strace.log')
             if n % 4 == 3:
@@ -439,6 +440,35 @@ def leg_strace(ns, res, spec):
                 if fp['sha256'] != before[pth]['sha256']:
                     res.violation('py:cli-source-file-changed', '[py/CLI] %s changed by %r' % (os.path.basename(pth), cmd[2:]), case)
                     before[pth] = fp
+            # files of the command's own invention (a scratch file next to the output, say): a caller's table may be called just that.  Each newly
+            # seen one is followed up at once: the same command with the input table (or the join table, or the database) stored under that very name
+            outp = os.path.join(d, 'o.csv')
+            for cpath in sources.strace_collateral_paths(text, d, [outp, log, db, db + '-journal', db + '-wal', db + '-shm']):
+                res.count('strace_collateral_paths_observed')
+                key = (cmd[3] == 'sqlite', os.path.basename(cpath))
+                if key in followed:
+                    continue
+                followed.add(key)
+                for role in (('db',) if cmd[3] == 'sqlite' else ('input', 'join')):
+                    for qf in (('select *', 'select a1 +') if role != 'join' else ('select a1, b2 join %s on a1 == b1' % os.path.basename(cpath), 'select a1, b2 join %s on a1 == b1 where' % os.path.basename(cpath))):
+                        for stale in (cpath, outp):
+                            if os.path.exists(stale):
+                                os.unlink(stale)
+                        shutil.copyfile({'db': db, 'input': inp, 'join': jn}[role], cpath)
+                        fp0 = sources.fingerprint(cpath)
+                        if role == 'db':
+                            cmd2 = [sys.executable, '-m', 'rbql', 'sqlite', cpath, '--input', 't', '--query', qf, '--output', outp]
+                        else:
+                            cmd2 = [sys.executable, '-m', 'rbql', '--input', cpath if role == 'input' else inp, '--delim', ',', '--policy', 'quoted', '--query', qf, '--output', outp]
+                        p2 = subprocess.run(cmd2, env=e, cwd=d, stdout=subprocess.PIPE, stderr=subprocess.PIPE, timeout=120)
+                        res.evaluations += 1
+                        res.count('strace_collateral_follow_up_runs')
+                        fp1 = sources.fingerprint(cpath) if os.path.exists(cpath) else {'sha256': None}
+                        if fp1['sha256'] != fp0['sha256']:
+                            res.violation('py:cli-source-named-like-scratch-file-destroyed', '[py/CLI] the command writes a file of its own called %s next to the output; a %s table stored under that name is %s by %r (exit %d)' % (
+                                os.path.basename(cpath), role, 'removed' if fp1['sha256'] is None else 'changed', cmd2[2:], p2.returncode), {'leg': 'strace', 'cmd': cmd2[2:], 'role': role, 'collateral': os.path.basename(cpath)})
+                        if os.path.exists(cpath):
+                            os.unlink(cpath)
         res.sample({'leg': 'strace', 'cmd': cmd[2:], 'exit': p.returncode})
     finally:
         shutil.rmtree(d, ignore_errors=True)
